@@ -419,6 +419,23 @@ func contextHistories(run *core.Run) {
 		}
 	}
 	run.Add("context_histories", int64(len(orders)*len(texts)*len(texts)))
+	// the same text parsed first with an unfiltered context (as the drivers do internally), then with a default context:
+	// what the first parse learned must not help the second
+	for _, t := range forbidden {
+		for _, variant := range []string{t, " " + t + " ", strings.ToUpper(t[:1]) + t[1:]} {
+			_, _ = frontend.ParseCypher(frontend.NewContext(), t)
+			run.Add("context_history_parses", 2)
+			var err error
+			var m *cypher.RegularQuery
+			if p := core.Try(func() { m, err = frontend.ParseCypher(frontend.DefaultCypherContext(), variant) }); p != nil {
+				continue
+			}
+			if err == nil && m != nil {
+				a := artefact{Text: variant, Origin: "context-history", Edit: "parsed with an unfiltered context first"}
+				run.Report(core.Violation{Class: "accepted-by-a-default-context-after-an-unfiltered-parse-of-the-same-text", Summary: fmt.Sprintf("%q was parsed with frontend.NewContext() and then accepted by a default context", variant), Artefact: a})
+			}
+		}
+	}
 }
 
 func explore(s *explorer, k int) {
